@@ -170,6 +170,15 @@ def run_property(prop, tier, procs=16, only=None, tv=True):
                 tvproc.terminate()
             tvproc.join()
     claimed = {j['label']: j.get('claimed', True) for j in jobs}
+    wv = None
+    if tv and recs and not any(r['violations'] for r in recs):
+        wv = witness_validation(prop, recs, 60 if tier == 'quick' else 200)
+        if wv:
+            for d in wv['divergences']:
+                setup_errors.append('witness validation: ' + d)
+            for d in wv['skipped']:
+                setup_errors.append('witness validation could not run: ' + d)
+    pre = dict(pre, witness_validation=wv)
     return report(prop, tier, seed, recs, claimed, tv_rec, pre, setup_errors, hm, time.time() - t0)
 
 
@@ -288,6 +297,7 @@ def report(prop, tier, seed, recs, claimed, tv_rec, pre, setup_errors, hm, wall)
                                     tools='/usr/bin/z3 4.8.12, cvc5 1.0 binary (5 s each) on the SMT-LIB2 dump of one obligation of each of 24 harness instances spread over the job list'),
             translator_validation_runs=(tv_rec or {}).get('runs', 0),
             translator_validated_kernels=(tv_rec or {}).get('kernels', []),
+            witness_validation=pre.get('witness_validation') or 'not run',
             oracle_self_check=pre.get('oracle_checked', 0), pre=pre.get('info', {}),
             stubs=sorted(stubs | set(getattr(hm, 'STUBS', []))), max_abs_value=max_abs,
             solver='z3 %s QF_BV (python API), fresh solver per obligation' % _z3v(),
@@ -310,6 +320,64 @@ def report(prop, tier, seed, recs, claimed, tv_rec, pre, setup_errors, hm, wall)
 def _z3v():
     import z3
     return z3.get_version_string()
+
+
+def do_replay_batch(path):
+    """witness validation, all witnesses of one run in one process (the real packages are imported once)"""
+    from . import explore
+    out = []
+    for cex in json.load(open(path)):
+        try:
+            res = explore.judge_all(cex)
+        except BaseException as e:
+            res = dict(status='judge-crashed', error='%s: %s' % (type(e).__name__, e), trace=traceback.format_exc()[-1200:], checked=0, false_goals=[])
+        res['label'] = cex['label']
+        out.append(res)
+    print('BATCH-RESULT ' + json.dumps(out, default=str))
+    return 0
+
+
+def witness_validation(prop, recs, limit):
+    """replay one satisfying input per harness instance (a model of the path's assumptions) on the real build and require
+    every goal the solver discharged on that path to hold there: guards against an encoding (stand-ins, harness) that is
+    more permissive than the real library"""
+    import subprocess
+    wits = [w for r in sorted(recs, key=lambda r: r['label']) for w in r.get('witnesses', [])]
+    if not wits:
+        return None
+    step = max(1, -(-len(wits) // limit))
+    wits = wits[::step]
+    path = os.path.join(VERIF, 'replays', 'witnesses_%s_%d.json' % (prop, os.getpid()))
+    os.makedirs(os.path.dirname(path), exist_ok=True)
+    json.dump(wits, open(path, 'w'), default=lambda o: int(o) if hasattr(o, '__int__') else str(o))
+    t0 = time.time()
+    res = dict(witnesses=len(wits), goals_checked=0, agreed=0, divergences=[], skipped=[])
+    try:
+        p = subprocess.run([sys.executable, os.path.join(VERIF, 'check.py'), '--replay-batch', path], capture_output=True, text=True,
+                           timeout=900, cwd=VERIF)
+        line = [l for l in p.stdout.splitlines() if l.startswith('BATCH-RESULT ')]
+        if not line:
+            res['skipped'].append('batch process gave no result: ' + p.stderr[-400:])
+        else:
+            for r in json.loads(line[-1][len('BATCH-RESULT '):]):
+                res['goals_checked'] += r.get('checked', 0)
+                if r['status'] == 'agreed':
+                    res['agreed'] += 1
+                elif r['status'] == 'diverged':
+                    res['divergences'].append('%s: goals %s are false on the real build for a model of the path assumptions' % (r['label'], r['false_goals']))
+                else:
+                    res['skipped'].append('%s: %s %s' % (r['label'], r['status'], r.get('error') or r.get('which') or ''))
+    except subprocess.TimeoutExpired:
+        res['skipped'].append('batch timed out')
+    res['wall_s'] = round(time.time() - t0, 1)
+    if not res['divergences'] and not res['skipped']:
+        try:
+            os.remove(path)
+        except OSError:
+            pass
+    else:
+        res['file'] = path
+    return res
 
 
 def do_replay(path, quiet=False):
